@@ -43,6 +43,46 @@ HELPERS = ["partial", "deterministic_choice", "ExperimentConditionalFailedError"
            "str", "map"]
 
 
+def generated_vocabulary():
+    """Every identifier the generated Python text itself uses (function and parameter names, locals, imported names,
+    keyword-argument names, attribute names, builtins it calls), harvested from the text the real generator emits for two
+    sample programs in both layouts.  A field or an experiment carrying one of these names is where generated code
+    captures or shadows a name, so they all join the identifier pool - the pool follows the generator instead of a list
+    written down once."""
+    import ast as _ast
+    from pyab_experiment.utils.wraper_functions import parse_source
+    from pyab_experiment.codegen.python.python_generator import PythonCodeGen
+    samples = ['def zq_exp { salt: "s" splitters: zq_a, zq_b if zq_c == 1 and zq_a in (zq_d, 2) { return "x" weighted 1, "y" weighted 2 } '
+               'else if zq_c > 2 { return "z" weighted 1 } else { return 0 weighted 1 } }',
+               'def zq_exp { if zq_c == 1 { return "x" weighted 1 } }']
+    names = set()
+    for text in samples:
+        for expose in (False, True):
+            try:
+                with contextlib.redirect_stdout(io.StringIO()), contextlib.redirect_stderr(io.StringIO()):
+                    code = PythonCodeGen(parse_source(text), expose_experiment_variant_function=expose).generate()
+                tree = _ast.parse(code)
+            except Exception:
+                continue
+            for node in _ast.walk(tree):
+                if isinstance(node, _ast.Name):
+                    names.add(node.id)
+                elif isinstance(node, (_ast.FunctionDef, _ast.ClassDef)):
+                    names.add(node.name)
+                elif isinstance(node, _ast.arg):
+                    names.add(node.arg)
+                elif isinstance(node, _ast.keyword) and node.arg:
+                    names.add(node.arg)
+                elif isinstance(node, _ast.alias):
+                    names.add((node.asname or node.name).split(".")[0])
+                elif isinstance(node, _ast.Attribute):
+                    names.add(node.attr)
+    import re as _re
+    own = {"zq_exp", "zq_a", "zq_b", "zq_c", "zq_d"}
+    dsl_kw = {"in", "not", "def", "if", "else", "return", "and", "or", "salt", "splitters", "weighted"}
+    return sorted(n for n in names - own - dsl_kw if _re.fullmatch(r"[a-zA-Z_][a-zA-Z0-9_]*", n) and n not in keyword.kwlist)
+
+
 def name_programs(names):
     out = []
     for n in names:
@@ -51,6 +91,8 @@ def name_programs(names):
         body = If(((Cmp(Id(n), "==", Lit(1)), R()),), R())
         out.append(("id-as-condition", n, relabel(Program("exp", body, None, ("uid",)))))
         out.append(("id-as-both", n, relabel(Program("exp", body, "s", (n, "uid")))))
+        body2 = If(((Cmp(Id(n), ">", Lit(1)), R()),), R())
+        out.append(("id-as-condition", n, relabel(Program("exp", body2, "s", ("uid",)))))
         out.append(("id-as-name", n, relabel(Program(n, If(((Cmp(Id("fld"), ">", Lit(0)), R()),), None), None, ("uid",)))))
     return out
 
@@ -222,7 +264,8 @@ def main(tier):
     # ---- code generation + evaluation ---------------------------------------------------
     fam = []
     fam += [(k, n, p) for k, n, p in name_programs(POOL_PLAIN)]
-    fam += [(k, n, p) for k, n, p in name_programs(RESERVED + HELPERS)]
+    vocab = [n for n in generated_vocabulary() if n not in HELPERS and n not in POOL_PLAIN]
+    fam += [(k, n, p) for k, n, p in name_programs(RESERVED + HELPERS + vocab)]
     fam += structure_programs()
     fam += [("doc", None, p) for p in pf.documented_programs()]
     fam += [("tuple-ids", None, p) for p in pf.single_predicate_programs(include_tuple_ids=True)
